@@ -499,14 +499,66 @@ Definition glue_nts (k : string) (a o : list value) : option verdict :=
                   let l := length c0 in
                   let maxfit := ((1024 - 48 - (4 + length uid) - 40) / (4 + l))%nat in
                   if (32 <=? length uid)%nat && (length uid mod 4 =? 0)%nat && (l mod 4 =? 0)%nat && (24 <=? l)%nat
-                     && (1 <=? maxfit)%nat && forallb (fun c => (length c =? l)%nat) cookies then
+                     && (1 <=? maxfit)%nat && (l <=? 896)%nat && forallb (fun c => (length c =? l)%nat) cookies then
                     let sent := firstn (Nat.min (length cookies) maxfit) cookies in
                     negb (zb pan) && (derr =? 0) && (aerr =? 0) &&
+                    (* the packet the constructor built is complete: nothing was cut at the size limit *)
+                    (length enc <=? 1024)%nat &&
+                    match nts_pkt_of dv with
+                    | Some dd => let '(_, alen, _, _) := np_auth dd in
+                                 Z.of_nat (length enc) =? 48 + snd (fst (np_uid dd)) + sum_lens (np_cookies dd)
+                                                         + sum_plens (np_placeholders dd) + alen
+                    | None => false end &&
                     match ext_vals_of afterv, getBs storedv with
                     | Some after, Some stored =>
                         C14_resp_cookies_ok sent after &&
                         (if (l <=? 896)%nat then (length stored =? length sent)%nat && forallb2_eq stored sent else true)
                     | _, _ => false end
+                  else true
+              | [] => true
+              end in
+            Some (functional expected o oracle)
+        | None => None end
+    | _, _ => None end
+  else if is k "nts.req" then
+    match a, o with
+    | [VB hdr; VB tail; VL heldv; VB _; VB tape], [VZ pan; VB enc; VZ derr; dv; VZ authok; VL afterv; VB idv] =>
+        match getBs heldv with
+        | Some held =>
+            let id := firstn 32 tape in
+            let nonce := firstn 16 (skipn 32 tape) in
+            let panic_row := [VZ 1; VB []; VZ 0; VL []; VZ 0; VL []; VB []] in
+            let expected :=
+              match nts_request_in id held with
+              | Some p =>
+                  let authpos := (48 + field_len id + sum_field_lens (ni_cookies p) + sum_field_lens (ni_placeholders p))%nat in
+                  let ct := zpad 16 (skipn (authpos + 24) enc) in
+                  let fits := (authpos + 8 + 16 + 16 <=? 1024)%nat in
+                  match nts_encode hdr tail p nonce ct with
+                  | Ok e => let d := nts_decode nts_pkt_empty e in
+                            if fits then [VZ 0; VB e; VZ (snd d); nts_pkt_val (fst d); vbool (snd d =? 0);
+                                          (if snd d =? 0 then cookie_vals (np_cookies (fst d)) else VL []); VB id]
+                            else [VZ 0; VB e; VZ (snd d); nts_pkt_val (fst d); VZ authok; VL afterv; VB id]
+                  | _ => panic_row
+                  end
+              | None => panic_row
+              end in
+            (* a client holding 1..8 cookies of a length the fetcher accepts (<= 896): the request
+               NewRequestPacket builds is complete (not cut at the size limit), decodes to the
+               identifier drawn, the first held cookie and at most 8 - held placeholders of the
+               cookie's length, and is accepted under the key *)
+            let oracle :=
+              match held with
+              | c0 :: _ =>
+                  if (length held <=? 8)%nat && (length c0 <=? 896)%nat then
+                    negb (zb pan) && (derr =? 0) && zb authok && zs_eqb idv id && (length enc <=? 1024)%nat &&
+                    match nts_pkt_of dv with
+                    | Some d =>
+                        let k := length (np_placeholders d) in
+                        (k <=? 8 - length held)%nat &&
+                        C14_nts_ok hdr {| ni_id := id; ni_cookies := [c0]; ni_placeholders := repeat (repeat 0 (length c0)) k |}
+                                   nonce (zpad 16 (skipn (length enc - 16) enc)) enc derr d
+                    | None => false end
                   else true
               | [] => true
               end in
